@@ -22,6 +22,7 @@ import (
 	"fmt"
 	"math/big"
 	"regexp"
+	"runtime/debug"
 	"strconv"
 	"strings"
 
@@ -203,7 +204,10 @@ func validCalendar(y, m, d int) bool {
 
 // compare returns "" when the decoded binary value v means the same as the text value.
 func compare(col Col, v bp.Value) string {
-	txt := string(col.value())
+	txt := ""
+	if len(col.value()) < 1<<12 { // long values are strings/blobs, compared as bytes below
+		txt = string(col.value())
+	}
 	unsigned := col.Flags&fUnsigned != 0
 	switch col.Type {
 	case bp.TTiny, bp.TShort, bp.TInt24, bp.TLong, bp.TLonglong, bp.TYear:
@@ -253,8 +257,8 @@ func compare(col Col, v bp.Value) string {
 		}
 	case bp.TVarchar, bp.TBit, bp.TEnum, bp.TSet, bp.TTinyBlob, bp.TMediumBlob, bp.TLongBlob, bp.TBlob,
 		bp.TVarString, bp.TString, bp.TGeometry, bp.TJSON:
-		if v.Kind != bp.KBytes || !bytes.Equal(v.B, []byte(txt)) {
-			return fmt.Sprintf("binary row carries %d bytes %q, text value has %d bytes %q", len(v.B), clip(v.B), len(txt), clip([]byte(txt)))
+		if v.Kind != bp.KBytes || !bytes.Equal(v.B, col.value()) {
+			return fmt.Sprintf("binary row carries %d bytes %q, text value has %d bytes %q", len(v.B), clip(v.B), len(col.value()), clip(col.value()))
 		}
 	case bp.TDate:
 		m := reDate.FindStringSubmatch(txt)
@@ -653,11 +657,10 @@ func multiRowSets(r *ev.Run, types []typeSpec) []Case {
 		cases = append(cases, setsOver([]colSpec{a}, 2)...)
 		cases = append(cases, setsOver([]colSpec{a}, 3)...)
 	}
-	// 2 columns: every ordered pair of types; 2 rows (16 patterns) and 3 rows (64 patterns)
+	// 2 columns: every ordered pair of types with 2 rows (16 patterns)
 	for _, a := range specs {
 		for _, b := range specs {
 			cases = append(cases, setsOver([]colSpec{a, b}, 2)...)
-			cases = append(cases, setsOver([]colSpec{a, b}, 3)...)
 		}
 	}
 	// 3 columns over a sublist (fixed-width, lenenc, temporal, decimal ...): 2 rows (64 patterns);
@@ -669,14 +672,31 @@ func multiRowSets(r *ev.Run, types []typeSpec) []Case {
 			sub = append(sub, cs)
 		}
 	}
+	full10 := sub
 	short := sub
-	if r.Quick() && len(short) > 4 {
+	if r.Quick() {
+		// quick: 6 types for 3 columns x 2 rows, 3 types for 3 columns x 3 rows
+		var six []colSpec
 		short = nil
 		for _, cs := range sub {
 			switch cs.t {
-			case bp.TTiny, bp.TVarString, bp.TDatetime, bp.TNewDecimal:
+			case bp.TTiny, bp.TVarString, bp.TDatetime:
 				short = append(short, cs)
+				six = append(six, cs)
+			case bp.TNewDecimal, bp.TTime, bp.TLonglong:
+				six = append(six, cs)
 			}
+		}
+		sub = six
+	}
+	// 2 columns x 3 rows (64 patterns): every ordered pair of the 10-type sublist (thorough: of all types)
+	pair3 := full10
+	if r.Thorough() {
+		pair3 = specs
+	}
+	for _, a := range pair3 {
+		for _, b := range pair3 {
+			cases = append(cases, setsOver([]colSpec{a, b}, 3)...)
 		}
 	}
 	r.Set("multi_row_three_column_types", len(sub))
@@ -725,8 +745,8 @@ func universe(r *ev.Run) []Case {
 	for _, s := range types {
 		for _, fl := range flagSets {
 			for _, v := range valuesFor(s, fl) {
-				if len(v) > 1<<20 && fl != 0 && fl != fBinary && r.Quick() {
-					continue // the 16 MiB value: two flag sets in the quick tier
+				if len(v) > 1<<20 && fl != 0 && r.Quick() {
+					continue // the 16 MiB value: one flag set in the quick tier
 				}
 				cases = append(cases, Case{Cols: []Col{mkCol(s.t, fl, v)}})
 			}
@@ -792,6 +812,7 @@ func universe(r *ev.Run) []Case {
 
 func main() {
 	gx.Quiet()
+	debug.SetGCPercent(400) // allocation-heavy, small live heap
 	r := ev.Start("C13", "exploration")
 	if err := bp.SelfTest(); err != nil {
 		ev.Fatalf("%v", err)
@@ -807,7 +828,7 @@ func main() {
 		r.Capped(fmt.Sprintf("%d of %d rows", done, len(cases)))
 	}
 	r.Set("universe", len(cases))
-	r.Set("rule", "rows are enumerated, never sampled: (1 column) every wire type {TINY,SHORT,INT24,LONG,LONGLONG,YEAR,FLOAT,DOUBLE,NEWDECIMAL,DECIMAL,DATE,DATETIME,TIMESTAMP,TIME,BIT,JSON,ENUM,SET,GEOMETRY,VARCHAR,VAR_STRING,STRING,TINY/MEDIUM/LONG_BLOB,BLOB} x flag set {0,UNSIGNED,BINARY,NOT_NULL,UNSIGNED|NOT_NULL,BINARY|NOT_NULL,UNSIGNED|ZEROFILL} x every value of the type's boundary universe (width extremes per signedness, +-0, float/double extremes and denormals, 65-digit decimals, strings of 0/1/250/251/300/65535/65536/2^24 bytes with 00/ff/quote bytes, zero and partial-zero dates, 0/3/6 fractional digits, TIME +-838:59:59, >24h, negative sub-second) and NULL; (2 columns) every ordered pair of the representatives (one or two values per type + NULLs); (3 columns) every ordered triple of the representatives; (thorough only) every single-column case next to every representative in both orders; (wide) 5..23 TINY columns with none/all/each single column NULL so that the NULL bitmap crosses its byte borders; (result sets of 2 and 3 rows, ONE BuildBinaryResultSet call each, every row decoded and compared with its own text row) every NULL/value pattern of all cells — hence every ordered pair and triple of rows, both orders — over: each single representative column, every ordered pair of representative columns, every ordered triple of a 10-type sublist with 2 rows and of a 4-type (thorough: 10-type) sublist with 3 rows, and 6/7/8/14/15 TINY columns with every ordered pair of rows having none/all/one column NULL; a non-NULL cell in row k takes the type's k-th representative value. A case is non-trivial when Gaea produced a binary row (no error) holding at least one non-NULL value; distinct_nontrivial counts distinct such rows, distinct_outcomes the observed (type, flags, NULL, outcome) combinations of the single-column rows")
+	r.Set("rule", "rows are enumerated, never sampled: (1 column) every wire type {TINY,SHORT,INT24,LONG,LONGLONG,YEAR,FLOAT,DOUBLE,NEWDECIMAL,DECIMAL,DATE,DATETIME,TIMESTAMP,TIME,BIT,JSON,ENUM,SET,GEOMETRY,VARCHAR,VAR_STRING,STRING,TINY/MEDIUM/LONG_BLOB,BLOB} x flag set {0,UNSIGNED,BINARY,NOT_NULL,UNSIGNED|NOT_NULL,BINARY|NOT_NULL,UNSIGNED|ZEROFILL} x every value of the type's boundary universe (width extremes per signedness, +-0, float/double extremes and denormals, 65-digit decimals, strings of 0/1/250/251/300/65535/65536/2^24 bytes with 00/ff/quote bytes, zero and partial-zero dates, 0/3/6 fractional digits, TIME +-838:59:59, >24h, negative sub-second) and NULL; (2 columns) every ordered pair of the representatives (one or two values per type + NULLs); (3 columns) every ordered triple of the representatives; (thorough only) every single-column case next to every representative in both orders; (wide) 5..23 TINY columns with none/all/each single column NULL so that the NULL bitmap crosses its byte borders; (result sets of 2 and 3 rows, ONE BuildBinaryResultSet call each, every row decoded and compared with its own text row) every NULL/value pattern of all cells — hence every ordered pair and triple of rows, both orders — over: each single representative column (2 and 3 rows), every ordered pair of representative columns with 2 rows, every ordered pair of a 10-type sublist (thorough: all types) with 3 rows, every ordered triple of a 6-type (thorough: 10-type) sublist with 2 rows and of a 3-type (thorough: 10-type) sublist with 3 rows, and 6/7/8/14/15 TINY columns with every ordered pair of rows having none/all/one column NULL; a non-NULL cell in row k takes the type's k-th representative value. A case is non-trivial when Gaea produced a binary row (no error) holding at least one non-NULL value; distinct_nontrivial counts distinct such rows, distinct_outcomes the observed (type, flags, NULL, outcome) combinations of the single-column rows")
 	for _, i := range []int{0, len(cases) / 5, len(cases) / 2, len(cases) - 1} {
 		r.Sample(cases[i])
 	}
